@@ -15,7 +15,7 @@ open Supv.Proc Supv.Cmd
 /-- a request emitted by the implementation; a start carries the rank of the application start it belongs to (which user
     request) and the strategy that was requested -/
 inductive Req where
-  | start (p i : Nat) (run : Nat) (strat : Strategy)
+  | start (p i : Nat) (run : Nat) (strat : Strategy) (single : Bool := false)
   | stop (p i : Nat)
   | force (p : Nat) (state : PState) (noResource : Bool) (run : Nat)
   deriving Repr, DecidableEq
@@ -27,6 +27,23 @@ structure Run where
   handled : List Nat := []      -- processes for which a start or a forced state was emitted in this run
   touched : List Nat := []      -- processes that reported anything since the first request of the run
   aborted : Option (String × Nat) := none   -- a required process failed with ABORT / STOP (cause, its start sequence)
+  /-- the start comes from the automatic start of all applications (`startapps`), not from a user request -/
+  auto : Bool := false
+  /-- a start request of this run has already been emitted -/
+  begun : Bool := false
+  /-- non-distributed application: the instance the first start request of this run was sent to -/
+  first : Option Nat := none
+  /-- non-distributed application: the world when the first start request of this run was emitted, and the rank of that
+      operation (the placement of the whole application is decided then) -/
+  snap : Option W := none
+  beginOp : Nat := 0
+  /-- C03, STOP strategy: a required process with starting_failure_strategy STOP failed in this run; the processes of the
+      application that were running at that time or were requested by this run, have not reported a stopped state and have not
+      been asked to stop since: "STOP then stops it once in-flight starts end" -/
+  stopDue : Option (List Nat) := none
+  /-- every STOP failure of this run so far was a refusal for lack of resource (root cause of its own: the forced FATAL re-enters
+      `Commander.next`, which may drop the job before `process_failure` records the stop request) -/
+  stopNoRes : Bool := true
   deriving Repr
 
 /-- an outstanding start request -/
@@ -37,6 +54,8 @@ structure Pending where
   run : Nat
   /-- the Starter reported no start in progress while this request was outstanding: it is not followed any more -/
   orphaned : Bool := false
+  /-- a `start_process` request: the process is started out of its application's sequence, wait_exit is not considered -/
+  single : Bool := false
   deriving Repr
 
 structure Judge where
@@ -49,6 +68,17 @@ structure Judge where
   /-- applications for which stop requests overlapped (a new stop / restart while an earlier one was still going on): the
       monitor cannot tell which stop a request belongs to, the "still running" clause is not judged for them any more -/
   overlap : List Nat := []
+  /-- processes that were already STOPPING when a stop of their application was requested (known root cause: they are neither
+      asked nor waited for), until they report a stopped state -/
+  wasStopping : List Nat := []
+  /-- a stop of ALL applications is in progress (C09, second sentence): the applications that had a process running or
+      stopping when it began; empty when none is going on, or when it began while other stops were still in progress -/
+  stopAll : List Nat := []
+  /-- rank of the current operation -/
+  opIdx : Nat := 0
+  /-- single process starts requested by the user (`startproc`): process, rank of the operation, world at that time (in a
+      non-distributed application whose start is going on, the placement of the new command is decided then) -/
+  added : List (Nat × Nat × W) := []
   deriving Repr, Inhabited
 
 def pc (w : W) (p : Nat) : PCfg := w.pcfg.getD p default
@@ -72,8 +102,18 @@ def pendingNode (w : W) (reqs : List Pending) (nd : Nat) : Nat :=
     applicable identifiers rule permits" -/
 def known (w : W) (p i : Nat) : Bool :=
   match (pr w p).infos.get? i with | some v => !v.disabled | none => false
+/-- the distribution rule of an application -/
+def adist (w : W) (a : Nat) : Dist := (w.acfg.getD a default).distribution
+def appAllowed (w : W) (a i : Nat) : Bool :=
+  match (w.acfg.getD a default).idents with | none => true | some l => l.contains i
+/-- "the applicable identifiers rule (the program's rule, or the application's when its distribution is restricted)" -/
 def allowed (w : W) (p i : Nat) : Bool :=
-  match (pc w p).idents with | none => true | some l => l.contains i
+  if adist w (pc w p).app == .all then (match (pc w p).idents with | none => true | some l => l.contains i)
+  else appAllowed w (pc w p).app i
+/-- the declared order of the applicable rule -/
+def declaredOrder (w : W) (p : Nat) : List Nat :=
+  if adist w (pc w p).app == .all then (match (pc w p).idents with | none => List.range w.ninst | some l => l)
+  else (match (w.acfg.getD (pc w p).app default).idents with | none => List.range w.ninst | some l => l)
 def candidate (w : W) (p i : Nat) : Bool := w.instRunning.getD i false && known w p i && allowed w p i
 /-- "... and whose node load ... stays at or below 100 once the program's expected_loading is added" -/
 def fits (w : W) (reqs : List Pending) (p i : Nat) : Bool :=
@@ -88,7 +128,7 @@ def ltKey (a b : Nat × Nat) : Bool := a.1 < b.1 || (a.1 == b.1 && a.2 < b.2)
 def optimal (w : W) (reqs : List Pending) (strat : Strategy) (p i : Nat) : Bool :=
   let il (j : Nat) := instLoadS w j + pendingInst w reqs j
   let nl (j : Nat) := nodeLoadS w (w.node.getD j 0) + pendingNode w reqs (w.node.getD j 0)
-  let order := match (pc w p).idents with | none => List.range w.ninst | some l => l
+  let order := declaredOrder w p
   let elig := order.filter (eligible w reqs p)
   match strat with
   | .config => elig.head? == some i
@@ -97,6 +137,68 @@ def optimal (w : W) (reqs : List Pending) (strat : Strategy) (p i : Nat) : Bool 
   | .lessLoadedNode => elig.all (fun j => !ltKey (nl j, il j) (nl i, il i))
   | .mostLoadedNode => elig.all (fun j => !ltKey (nl i, il i) (nl j, il j))
   | .local => i == w.me
+
+/-! ### Non-distributed applications (C14, second sentence; C04 with the application's rule) -/
+
+/-- the load key the strategy compares (instance load first, or node load first), starts already requested included -/
+def keyOf (w : W) (reqs : List Pending) (strat : Strategy) (j : Nat) : Nat × Nat :=
+  let il := instLoadS w j + pendingInst w reqs j
+  let nl := nodeLoadS w (w.node.getD j 0) + pendingNode w reqs (w.node.getD j 0)
+  match strat with
+  | .lessLoaded | .mostLoaded => (il, nl)
+  | _ => (nl, il)
+/-- key `a` is strictly better than key `b` for the strategy -/
+def betterKey (strat : Strategy) (a b : Nat × Nat) : Bool :=
+  match strat with
+  | .lessLoaded | .lessLoadedNode => ltKey a b
+  | .mostLoaded | .mostLoadedNode => ltKey b a
+  | _ => false
+
+/-- "the whole start sequence": the expected_loading of every process of the application with a positive start_sequence -/
+def appLoadS (w : W) (a : Nat) : Nat :=
+  ((List.range w.pcfg.length).filter (fun q => (pc w q).app == a && 0 < (pc w q).startSeq)).foldl (fun acc q => acc + (pc w q).load) 0
+
+/-- the node of `i` can take the whole start sequence of application `a` -/
+def carries (w : W) (reqs : List Pending) (a i : Nat) : Bool :=
+  nodeLoadS w (w.node.getD i 0) + pendingNode w reqs (w.node.getD i 0) + appLoadS w a ≤ 100
+
+/-- instance `j` is eligible for the WHOLE application under the strictest reading: seen RUNNING, permitted by the application's
+    rule, knows and enables EVERY program of the application, its node can take the whole start sequence.  The choice made is
+    only compared with such instances (a choice that beats them is right under every reading of the statement). -/
+def eligAppStrict (w : W) (reqs : List Pending) (a j : Nat) : Bool :=
+  w.instRunning.getD j false && appAllowed w a j
+  && ((List.range w.pcfg.length).filter (fun q => (pc w q).app == a)).all (fun q => known w q j) && carries w reqs a j
+
+/-- SINGLE_INSTANCE: no instance eligible for the whole application is strictly better than the chosen one -/
+def optimalApp (w : W) (reqs : List Pending) (strat : Strategy) (p i : Nat) : Bool :=
+  let a := (pc w p).app
+  let order := declaredOrder w p
+  match strat with
+  | .config => !order.contains i || !(order.takeWhile (· != i)).any (eligAppStrict w reqs a)
+  | .local => i == w.me
+  | _ => order.all (fun j => !(eligAppStrict w reqs a j && betterKey strat (keyOf w reqs strat j) (keyOf w reqs strat i)))
+
+/-- SINGLE_NODE: no instance of ANOTHER node, eligible for the whole application, is strictly better than every instance of the
+    chosen node `nd` (the node is the node of the instance the strategy prefers) -/
+def optimalNode (w : W) (reqs : List Pending) (strat : Strategy) (p nd : Nat) : Bool :=
+  let a := (pc w p).app
+  let order := declaredOrder w p
+  let cand := order.filter (fun k => w.node.getD k 0 == nd && w.instRunning.getD k false)
+  match strat with
+  | .config => !(order.takeWhile (fun k => w.node.getD k 0 != nd)).any (eligAppStrict w reqs a)
+  | .local => nd == w.node.getD w.me 0
+  | _ => cand.isEmpty || order.all (fun j => !(w.node.getD j 0 != nd && eligAppStrict w reqs a j
+            && cand.all (fun k => betterKey strat (keyOf w reqs strat j) (keyOf w reqs strat k))))
+
+/-- SINGLE_NODE: among the instances of the chosen node eligible for the program (`i` itself is taken as eligible), none is
+    strictly better than `i` for the strategy -/
+def optimalInNode (w : W) (reqs : List Pending) (strat : Strategy) (p i : Nat) : Bool :=
+  let nd := w.node.getD i 0
+  let elig := (declaredOrder w p).filter (fun k => w.node.getD k 0 == nd && (k == i || eligible w reqs p k))
+  match strat with
+  | .config => elig.head? == some i
+  | .local => i == w.me
+  | _ => elig.all (fun k => !betterKey strat (keyOf w reqs strat k) (keyOf w reqs strat i))
 
 /-- the requests of the same application start only (what the code's `process_job` counts): used to attribute a rejection
     to the known root cause "requests of other application jobs ignored" -/
@@ -107,26 +209,107 @@ def setRun (j : Judge) (r : Run) : Judge :=
   if j.runs.any (·.id == r.id) then { j with runs := j.runs.map (fun x => if x.id == r.id then r else x) }
   else { j with runs := j.runs ++ [r] }
 
-/-- verdicts for one emitted request, and the updated monitor -/
-def onReq (w : W) (j : Judge) : Req → Judge × List String
-  | .start p i rid strat =>
+/-- a required process with the STOP strategy failed in `run`: what will have to be stopped -/
+def armStop (w : W) (run : Run) (c : PCfg) (noRes : Bool := false) : Run :=
+  if c.required && c.sfail == .stop then
+    let running := (List.range w.pcfg.length).filter (fun q => (pc w q).app == run.app && (pr w q).state.isRunning)
+    { run with stopDue := some ((run.stopDue.getD []) ++ running ++ run.handled), stopNoRes := run.stopNoRes && noRes }
+  else run
+
+/-- process `q` reported a stopped state, or was asked to stop: no start owes its stop any more -/
+def stopSettled (j : Judge) (q : Nat) : Judge :=
+  { j with runs := j.runs.map (fun run => match run.stopDue with
+      | some l => { run with stopDue := some (l.filter (· != q)) }
+      | none => run) }
+
+/-- what a report `st` of instance `i` about process `p` means for a start request outstanding there: RUNNING (without
+    wait_exit) or an expected exit (with wait_exit) finishes it; FATAL, any other exit, a stopped-like or STOPPING report fails it
+    (with a required process and ABORT / STOP nothing further may be requested for that start); BACKOFF re-arms it -/
+def onStartReport (w : W) (j : Judge) (p i : Nat) (st : PState) (expected : Bool) : Judge :=
+  let c := pc w p
+  let pend := j.reqs.find? (fun r => r.p == p && r.i == i)
+  let inflight := pend.isSome
+  let success := (st == .running && (!c.waitExit || pend.any (·.single))) || (st == .exited && c.waitExit && expected)
+  let failed := st == .fatal || (st == .exited && !(c.waitExit && expected)) || st == .stopped || st == .stopping || st == .unknown
+  let j1 := if inflight && (success || failed) then { j with reqs := j.reqs.filter (fun r => !(r.p == p && r.i == i)) } else j
+  let j2 := if inflight && st == .backoff then
+      { j1 with reqs := j1.reqs.map (fun r => if r.p == p && r.i == i then { r with counter := w.counter.getD i 0 } else r) } else j1
+  match pend >>= (fun r => findRun j2 r.run) with
+  | some run =>
+    if failed && c.required && (c.sfail == .abort || c.sfail == .stop)
+    then setRun j2 (armStop w { run with aborted := some (run.aborted.getD ("abort(failure)", c.startSeq)) } c) else j2
+  | none => j2
+
+/-- verdicts for one emitted request, and the updated monitor; `opReqs`: everything emitted by the operation -/
+def onReq (w : W) (opReqs : List Req) (j : Judge) : Req → Judge × List String
+  | .start p i rid strat single =>
     let app := (pc w p).app
-    let isNew := (findRun j rid).isNone
+    -- a run registered by `startapps` that has emitted nothing yet is as new as one seen for the first time
+    let isNew := match findRun j rid with | none => true | some r => r.auto && r.handled.isEmpty
     let run := (findRun j rid).getD { id := rid, app := app }
+    let dist := adist w app
+    -- a non-distributed application is placed as a whole when its start begins: `w0` is the world at that time, `fresh` tells
+    -- that this request belongs to the operation in which the placement was decided
+    -- a single command added while the start was going on is placed when it is added
+    let addedAt := (j.added.find? (fun x => x.1 == p)).filter (fun x => single && run.snap.isSome && run.beginOp < x.2.1)
+    let w0 := match addedAt with | some x => x.2.2 | none => run.snap.getD w
+    let fresh := match addedAt with | some x => x.2.1 == j.opIdx | none => run.snap.isNone || run.beginOp == j.opIdx
+    let own := ownReqs j.reqs rid
     let v04 :=
-      (if w.instRunning.getD i false then [] else [s!"C04-target-not-running:{p}>{i}"]) ++
-      (if known w p i then [] else [s!"C04-program-unknown-or-disabled:{p}>{i}"]) ++
+      (if w.instRunning.getD i false then []
+       else if dist != .all && !fresh && w0.instRunning.getD i false then [s!"C04-not-rechecked:target-not-running:{p}>{i}"]
+       else [s!"C04-target-not-running:{p}>{i}"]) ++
+      (if known w p i then []
+       else if dist != .all && !fresh && known w0 p i then [s!"C04-not-rechecked:program-disabled:{p}>{i}"]
+       -- root cause of its own: the instance is taken from the selection made for the APPLICATION (`self.identifiers`: the
+       -- instances of the node, or the single instance when a command is added later) without looking at THIS program there
+       else if dist == .singleNode || (dist != .all && addedAt.isSome) then [s!"C04-selection-program-unknown-or-disabled:{p}>{i}"]
+       else [s!"C04-program-unknown-or-disabled:{p}>{i}"]) ++
       (if allowed w p i then [] else [s!"C04-rule-forbids:{p}>{i}"]) ++
       (if fits w j.reqs p i then [] else
-        (if fits w (ownReqs j.reqs rid) p i then [s!"C04-overload-by-requests-of-other-jobs:{p}>{i}"]
+        (if fits w own p i then [s!"C04-overload-by-requests-of-other-jobs:{p}>{i}"]
+         else if dist != .all && !fresh && fits w0 [] p i then [s!"C04-not-rechecked:overload:{p}>{i}"]
+         -- root cause of its own: a single process of a non-distributed application is placed by `before` for the load of the
+         -- application's start sequence (which leaves out a program of sequence 0), not for the program's load
+         else if dist != .all && single && (pc w p).startSeq == 0 && carries w0 [] app i
+           then [s!"C04-single-process-application-load-checked:{p}>{i}"]
          else [s!"C04-overload:{p}>{i}"])) ++
       (if (pr w p).state.isStopped then [] else [s!"C04-not-stopped:{p}>{i}"]) ++
       (if j.reqs.any (fun r => r.p == p && !r.orphaned) then [s!"C04-requested-twice:{p}>{i}"] else [])
     let v14 :=
       if !(eligible w j.reqs p i) then []      -- reported under C04
-      else if optimal w j.reqs strat p i then []
-      else if optimal w (ownReqs j.reqs rid) strat p i then [s!"C14-not-optimal-by-requests-of-other-jobs:{p}>{i}"]
-      else [s!"C14-not-optimal:{p}>{i}:{strat.code}"]
+      else match dist with
+      | .all =>
+        if optimal w j.reqs strat p i then []
+        else if optimal w own strat p i then [s!"C14-not-optimal-by-requests-of-other-jobs:{p}>{i}"]
+        else [s!"C14-not-optimal:{p}>{i}:{strat.code}"]
+      | .singleInstance =>
+        match run.first with
+        | some f => if f == i then [] else [s!"C14-single-instance-split:{p}>{i}:{f}"]
+        | none =>
+          -- the application begins: "one instance able to carry the whole start sequence", chosen by the strategy
+          (if carries w j.reqs app i then []
+           else if carries w own app i then [s!"C14-not-optimal-by-requests-of-other-jobs:cannot-carry-application:{p}>{i}"]
+           else [s!"C14-single-instance-cannot-carry-application:{p}>{i}"]) ++
+          -- (a single process joins the start of its application, placed with the strategy of that start: not judged)
+          (if single || optimalApp w j.reqs strat p i then []
+           else if optimalApp w own strat p i then [s!"C14-not-optimal-by-requests-of-other-jobs:{p}>{i}"]
+           else [s!"C14-not-optimal-for-application-load:{p}>{i}:{strat.code}"])
+      | .singleNode =>
+        let nd := w.node.getD i 0
+        (match run.first with
+         | some f => if w.node.getD f 0 == nd then [] else [s!"C14-single-node-split:{p}>{i}:{f}"]
+         | none =>
+           if single || optimalNode w j.reqs strat p nd then []
+           else if optimalNode w own strat p nd then [s!"C14-not-optimal-by-requests-of-other-jobs:{p}>{i}"]
+           else [s!"C14-not-optimal-for-application-load:{p}>{i}:{strat.code}"]) ++
+        -- inside the node the strategy applies to each program; the code decides every placement when the application
+        -- begins, from the loads of that time and without the starts it is itself about to request (known root cause)
+        (if run.first.any (fun f => w.node.getD f 0 != nd) || single then []
+         else if optimalInNode w j.reqs strat p i then []
+         else if optimalInNode w own strat p i then [s!"C14-not-optimal-by-requests-of-other-jobs:{p}>{i}"]
+         else if optimalInNode w0 [] strat p i then [s!"C14-single-node-placement-not-refreshed:{p}>{i}"]
+         else [s!"C14-single-node-not-optimal-in-node:{p}>{i}:{strat.code}"])
     -- C03: lower positive sequences of the same application are finished or given up
     let sp := (pc w p).startSeq
     let lower := (List.range w.pcfg.length).filter (fun q => (pc w q).app == app && 0 < (pc w q).startSeq && (pc w q).startSeq < sp)
@@ -139,9 +322,37 @@ def onReq (w : W) (j : Judge) : Req → Judge × List String
       | some (cause, sq) => if sp > sq then [s!"C03-start-after-{cause}:{p}"] else []
       | none => []
     let v03d := if sp == 0 then [s!"C03-sequence-0-started:{p}"] else []
-    let j1 := setRun j { run with handled := run.handled ++ [p] }
-    ({ j1 with reqs := j1.reqs ++ [{ p := p, i := i, counter := w.counter.getD i 0, run := rid }] },
-     v04 ++ v14 ++ v03a ++ v03b ++ v03c ++ v03d)
+    -- C03, automatic start of all applications: "applications whose start_sequence is 0 are never started automatically";
+    -- "an application only begins once all applications with a lower positive start_sequence are done"
+    let aseq (b : Nat) := (w.acfg.getD b default).startSeq
+    let v03e := if run.auto && aseq app == 0 then [s!"C03-application-sequence-0-started:{app}"] else []
+    let v03f := if run.auto && !run.begun then
+        let lower := ((j.runs.filter (fun r => r.auto && r.app != app && 0 < aseq r.app && aseq r.app < aseq app)).map (·.app)).eraseDups
+        lower.flatMap (fun b =>
+          -- the most recent automatic start of `b`, and every start of `b` requested since (a user request replaces a planned one)
+          let k0 := ((j.runs.filter (fun r => r.auto && r.app == b)).map (·.id)).foldl max 0
+          let runsB := j.runs.filter (fun r => r.app == b && r.id ≥ k0)
+          if j.reqs.any (fun r => !r.orphaned && (pc w r.p).app == b && j.runs.any (fun x => x.id == r.run && x.auto))
+          then [s!"C03-lower-application-in-flight:{p}:{b}"]
+          else if runsB.any (·.aborted.isSome) then []
+          else
+            let left := (List.range w.pcfg.length).filter (fun q => (pc w q).app == b && 0 < (pc w q).startSeq && (pr w q).state.isStopped
+                    && runsB.all (fun r => !(r.handled.contains q) && !(r.touched.contains q)))
+            -- dealt with later in this very operation: the job of `b` was dropped while its group was still being processed
+            -- (known root cause of C10:start-request-untracked: re-entrant Commander.next inside the group loop)
+            let later (q : Nat) := opReqs.any (fun r => match r with | .start q' _ _ _ _ => q' == q | .force q' _ _ _ => q' == q | _ => false)
+            if left.isEmpty then []
+            else if left.all later then [s!"C10-start-request-untracked:lower-application-still-processing:{p}:{b}"]
+            else [s!"C03-lower-application-skipped:{p}:{b}"])
+      else []
+    let j1 := setRun j { run with handled := run.handled ++ [p], begun := true, first := some (run.first.getD i),
+                                  stopDue := run.stopDue.map (· ++ [p]),
+                                  snap := (if dist != .all && run.snap.isNone then some { w with out := [] } else run.snap),
+                                  beginOp := (if run.snap.isNone then j.opIdx else run.beginOp) }
+    -- a process started on its own (`start_process`) is out of the sequencing clauses of C03
+    ({ j1 with added := (if single then j1.added.filter (fun x => x.1 != p) else j1.added),
+               reqs := j1.reqs ++ [{ p := p, i := i, counter := w.counter.getD i 0, run := rid, single := single }] },
+     v04 ++ v14 ++ (if single then [] else v03a ++ v03b ++ v03c ++ v03d ++ v03e ++ v03f))
   | .force p (st : PState) noRes frun =>
     -- a forced FATAL gives the start up; with a required process and ABORT / STOP nothing further may be requested
     let c : PCfg := pc w p
@@ -155,14 +366,22 @@ def onReq (w : W) (j : Judge) : Req → Judge × List String
       | some run =>
         let aborted := if st == PState.fatal && c.required && (c.sfail == SFail.abort || c.sfail == SFail.stop)
           then some (run.aborted.getD (cause, c.startSeq)) else run.aborted
-        setRun j { run with handled := run.handled ++ [p], aborted := aborted }
+        let run1 := { run with handled := run.handled ++ [p], aborted := aborted }
+        setRun j (if st == PState.fatal then armStop w run1 c noRes else run1)
       | none => j
     -- any event handled for the process while its target reports BACKOFF re-arms the request (a forced STOPPED included)
     let rearm (r : Pending) : Pending :=
       if r.p == p && ((pr w p).infos.get? r.i).map (·.state) == some PState.backoff then { r with counter := w.counter.getD r.i 0 } else r
-    ({ j1 with reqs := if st == PState.fatal then j1.reqs.filter (fun r => r.p != p) else j1.reqs.map rearm,
-               stops := if st == PState.stopped then j1.stops.filter (fun r => r.1 != p) else j1.stops,
-               givenUp := if st == PState.stopped then j1.givenUp ++ [p] else j1.givenUp }, [])
+    let j2 : Judge :=
+      { j1 with reqs := (if st == PState.fatal then j1.reqs.filter (fun r => r.p != p) else j1.reqs.map rearm),
+                stops := (if st == PState.stopped then j1.stops.filter (fun r => r.1 != p) else j1.stops),
+                givenUp := (if st == PState.stopped then j1.givenUp ++ [p] else j1.givenUp) }
+    -- the forced state of a stop given up is handled as an event of the LOCAL instance: a start request outstanding there ends
+    -- on what that instance last reported about the process
+    let j3 := if st == PState.fatal then j2 else match (pr w p).infos.get? w.me with
+      | some v => onStartReport w j2 p w.me v.state v.expected
+      | none => j2
+    ({ j3 with added := (if st == PState.fatal then j3.added.filter (fun x => x.1 != p) else j3.added) }, [])
   | .stop p i =>
     let app := (pc w p).app
     -- C09: only where running; higher stop sequences of the same application are stopped or given up
@@ -173,34 +392,41 @@ def onReq (w : W) (j : Judge) : Req → Judge × List String
       if j.stops.any (fun r => r.1 == q) then [s!"C09-higher-sequence-in-flight:{p}:{q}"]
       else if j.givenUp.contains q then []
       else if !(j.stopSet.contains q) || j.overlap.contains app then []      -- started after the stop was requested / overlapping user requests
+      else if j.stopRuns.contains app && j.wasStopping.contains q && ((pr w q).state.isRunning || (pr w q).state == .stopping)
+        then [s!"C09-higher-sequence-already-stopping-not-waited:{p}:{q}"]
       else if j.stopRuns.contains app && (pr w q).state.isRunning then [s!"C09-higher-sequence-still-running:{p}:{q}"]
       -- root cause of its own: a process that was already STOPPING when the application stop began is not waited for
       else if j.stopRuns.contains app && (pr w q).state == .stopping then [s!"C09-higher-sequence-already-stopping-not-waited:{p}:{q}"]
       else [])
-    ({ j with stops := j.stops ++ [(p, i, w.counter.getD i 0)] }, v1 ++ v2)
+    -- C09, stop of all applications: "applications are stopped in decreasing application stop_sequence under the same rule"
+    let astop (b : Nat) := (w.acfg.getD b default).stopSeq
+    let v3 := if j.stopAll.contains app && !j.overlap.contains app then
+        (j.stopAll.filter (fun b => b != app && !j.overlap.contains b && astop b > astop app)).flatMap (fun b =>
+          -- the processes of `b` that were running or stopping when the stop began, have not reported a stopped state since,
+          -- and whose stop was not given up
+          let qs := (List.range w.pcfg.length).filter (fun q => (pc w q).app == b && j.stopSet.contains q && !j.givenUp.contains q)
+          if qs.any (fun q => !j.wasStopping.contains q && (j.stops.any (fun r => r.1 == q) || (pr w q).state.isRunning))
+          then [s!"C09-higher-application-still-running:{p}:{b}"]
+          else match qs.find? (fun q => (pr w q).state == .stopping || (j.wasStopping.contains q && (pr w q).state.isRunning)) with
+            | some q => [s!"C09-higher-sequence-already-stopping-not-waited:{p}:{q}"]
+            | none => [])
+      else []
+    let j5 := stopSettled j p
+    ({ j5 with stops := j5.stops ++ [(p, i, w.counter.getD i 0)] }, v1 ++ v2 ++ v3)
 
 /-- a report from instance `i` about process `p` (the world already contains it) -/
 def onEvent (w : W) (j : Judge) (p i : Nat) (st : PState) (expected : Bool) : Judge :=
   let c := pc w p
-  let pend := j.reqs.find? (fun r => r.p == p && r.i == i)
-  let inflight := pend.isSome
-  -- terminal for a start request: RUNNING (no wait_exit), EXITED, FATAL, or an unexpected stopped-like / STOPPING report
-  let success := (st == .running && !c.waitExit) || (st == .exited && c.waitExit && expected)
-  let failed := st == .fatal || (st == .exited && !(c.waitExit && expected)) || st == .stopped || st == .stopping || st == .unknown
-  let j1 := if inflight && (success || failed) then { j with reqs := j.reqs.filter (fun r => !(r.p == p && r.i == i)) } else j
-  let j2 := if inflight && st == .backoff then
-      { j1 with reqs := j1.reqs.map (fun r => if r.p == p && r.i == i then { r with counter := w.counter.getD i 0 } else r) } else j1
+  let j2 := onStartReport w j p i st expected
   -- every run of the application has seen this process report
-  let j3 := { j2 with runs := j2.runs.map (fun run => if run.app == c.app then { run with touched := run.touched ++ [p] } else run) }
-  let j4 := match pend >>= (fun r => findRun j3 r.run) with
-    | some run =>
-      if failed && c.required && (c.sfail == .abort || c.sfail == .stop)
-      then setRun j3 { run with aborted := some (run.aborted.getD ("abort(failure)", c.startSeq)) } else j3
-    | none => j3
+  let j4 := { j2 with runs := j2.runs.map (fun run => if run.app == c.app then { run with touched := run.touched ++ [p] } else run) }
   -- stop requests: acknowledged by a stopped-like report from the target
   -- a process that reported a stopped state has been stopped: a later life of it is not part of this stop any more
-  if st.isStopped then { j4 with stops := j4.stops.filter (fun r => !(r.1 == p && r.2.1 == i)),
-                                 stopSet := j4.stopSet.filter (· != p) } else j4
+  if st.isStopped then
+    let j5 := stopSettled j4 p
+    { j5 with stops := j5.stops.filter (fun r => !(r.1 == p && r.2.1 == i)),
+              stopSet := j5.stopSet.filter (· != p), wasStopping := j5.wasStopping.filter (· != p) }
+  else j4
 
 /-- instance `i` has just been lost (`w`: the world after the loss).  C03 / C10: every start request outstanding on it is
     given up (host lost) - with a required process and ABORT / STOP nothing further may be requested for that start -, the
@@ -212,7 +438,7 @@ def onLose (w : W) (j : Judge) (i : Nat) : Judge × List String :=
     match findRun j r.run with
     | some run =>
       if c.required && (c.sfail == .abort || c.sfail == .stop)
-      then setRun j { run with aborted := some (run.aborted.getD ("abort(host-lost)", c.startSeq)) } else j
+      then setRun j (armStop w { run with aborted := some (run.aborted.getD ("abort(host-lost)", c.startSeq)) } c) else j
     | none => j) j
   let v1 := (lostReqs.filter (fun r => !r.orphaned)).flatMap (fun r =>
     if displayed (pr w r.p) == .fatal then [] else [s!"C10-lost-start-not-reported-fatal:{r.p}>{i}"])
@@ -253,5 +479,21 @@ def onIdle (j : Judge) (starting : Bool) : Judge × List String :=
   let fresh := j.reqs.filter (fun r => !r.orphaned)
   ({ j with reqs := j.reqs.map (fun r => { r with orphaned := true }) },
    fresh.map (fun r => s!"C10-start-request-untracked:{r.p}>{r.i}"))
+
+/-- C03, STOP strategy, evaluated at the end of every operation: once the in-flight starts of a run whose stop is due have
+    ended (no start request of it is outstanding) and the Stopper reports nothing in progress (no stop is waiting its turn),
+    nothing that had to be stopped may still be running without having been asked to stop. -/
+def onOpEnd (w : W) (j : Judge) (stopping : Bool) : Judge × List String :=
+  j.runs.foldl (fun (acc : Judge × List String) run =>
+    match run.stopDue with
+    | none => acc
+    | some l =>
+      let left := l.filter (fun q => (pr w q).state.isRunning)
+      if acc.1.reqs.any (fun r => r.run == run.id && !r.orphaned) || stopping then
+        (setRun acc.1 { run with stopDue := some left }, acc.2)
+      else (setRun acc.1 { run with stopDue := none },
+            if left.isEmpty then acc.2
+            else if run.stopNoRes then acc.2 ++ [s!"C03-stop-strategy-dropped-with-job:{run.app}"]
+            else acc.2 ++ [s!"C03-stop-strategy-not-applied:{run.app}"])) (j, [])
 
 end Supv.Spec.Cmd
